@@ -1088,3 +1088,127 @@ Theorem C09_inst2_C02_reach_partial4 : forall dbg idna, IdnaOK2 idna -> forall u
   /\ run_clean dbg idna None None (utf8_lossy (ser u)) /\ wf_b u = true /\ ascii (ser u).
 Proof. exact reach_partial4_model2. Qed.
 Print Assumptions C09_inst2_C02_reach_partial4.
+
+(* ====================================================================================== *)
+(* task c09last: the history theorems for the model linked with the REAL oracle            *)
+(* ====================================================================================== *)
+From RU Require Import Proofs.C09_HistReal.
+From RU Require Proofs.C02_Stmt4 Proofs.C02_Reach7 Proofs.C02_Hist Proofs.C02_JoinPath Proofs.C02_JoinAbs Proofs.C02_AuthMain
+  Proofs.C05_CompSteps3 Model.QueryPairs Proofs.C15_Ser.
+
+(* ---- the histories of the capped model ARE histories of the model itself, relation by relation (closes the GAP of
+   C09_inst2_C03_reachability_full / C09_inst2_C05_reachF / C09_inst2_C02_reach_partial4): a capped run that succeeds is the
+   run itself, a capped step is the step itself or returns the URL unchanged, the known-step classes and the step gates do
+   not look at Host::parse.  No premise on the oracle ---- *)
+Theorem C09_cap_history2 : forall dbg idna,
+  (forall u, C02_Reach3.Reachable3 dbg (host_parse (cap idna)) host_parse_opaque host_display u ->
+             C02_Reach3.Reachable3 dbg (host_parse idna) host_parse_opaque host_display u)
+  /\ (forall u, C02_Stmt4.Reachable4 dbg (host_parse (cap idna)) host_parse_opaque host_display u ->
+                C02_Stmt4.Reachable4 dbg (host_parse idna) host_parse_opaque host_display u)
+  /\ (forall u, C05_ReachF.CReachF dbg (host_parse (cap idna)) host_parse_opaque host_display u ->
+                C05_ReachF.CReachF dbg (host_parse idna) host_parse_opaque host_display u)
+  /\ (forall u, C02_Reach7.ReachC6 dbg (host_parse (cap idna)) host_parse_opaque host_display u ->
+                C02_Reach7.ReachC6 dbg (host_parse idna) host_parse_opaque host_display u).
+Proof.
+  exact (fun dbg idna => conj (Reachable3_cap dbg idna) (conj (Reachable4_cap dbg idna)
+           (conj (CReachF_cap dbg idna) (ReachC6_cap dbg idna)))).
+Qed.
+Print Assumptions C09_cap_history2.
+
+(* ---- C02_reach_partial6_model (re-parse fixpoint along ReachC6; premise IdnaOK: vacuous for the real crate) for the
+   histories of the capped model: they are ReachC6 histories of the model itself, the re-parse is a run with the oracle
+   ITSELF and a clean one ---- *)
+Theorem C09_inst2_C02_reach_partial6 : forall dbg idna, IdnaOK2 idna -> forall u,
+  C02_Reach7.ReachC6 dbg (host_parse (cap idna)) host_parse_opaque host_display u ->
+  C02_Reach7.ReachC6 dbg (host_parse idna) host_parse_opaque host_display u
+  /\ parse_url dbg (host_parse idna) host_parse_opaque host_display None None (utf8_lossy (ser u)) = POk u
+  /\ run_clean dbg idna None None (utf8_lossy (ser u)) /\ wf_b u = true /\ ascii (ser u).
+Proof. exact reach_partial6_model2. Qed.
+Print Assumptions C09_inst2_C02_reach_partial6.
+
+(* ---- result-clean histories: the SAME relations over the model with the oracle itself, each parse / join result
+   passing res_clean and each step result having its host text outside Known_C10_long (host_clean) - predicates on the
+   records of the history, as the Rust twin known_c10_long(host_str) computes them.  Pinned: the constructors ---- *)
+Check (eq_refl : host_clean = fun u => known_c10_long (ht u) = false).
+Check R3K_parse : forall dbg idna ovr input u, usv_list input ->
+  parse_url dbg (host_parse idna) host_parse_opaque host_display ovr None input = POk u ->
+  C02_Reach.Known_file_drive u = false -> res_clean u = true -> Reachable3K dbg idna u.
+Check R3K_join : forall dbg idna ovr b input u, Reachable3K dbg idna b -> usv_list input ->
+  parse_url dbg (host_parse idna) host_parse_opaque host_display ovr (Some b) input = POk u ->
+  C02_Reach.Known_file_drive u = false -> res_clean u = true -> Reachable3K dbg idna u.
+Check R3K_step : forall dbg idna u o u', Reachable3K dbg idna u -> C02_Reach.op_args_ok o ->
+  C02_Hist.known_step2 dbg (host_parse idna) host_parse_opaque host_display u o = false ->
+  C02_Reach.apply_op dbg (host_parse idna) host_parse_opaque host_display u o = Some u' ->
+  C02_Reach.Known_file_drive u' = false -> host_clean u' -> Reachable3K dbg idna u'.
+Check R3K_qpm : forall dbg idna u ops u', Reachable3K dbg idna u -> Forall C15_Ser.op_ok ops ->
+  QueryPairs.query_pairs_session dbg u ops = Some u' -> C02_Reach.Known_file_drive u' = false -> Reachable3K dbg idna u'.
+Check RC6K_parse : forall dbg idna ovr input u, usv_list input -> C02_AuthMain.nonfile_input input = true ->
+  parse_url dbg (host_parse idna) host_parse_opaque host_display ovr None input = POk u -> res_clean u = true -> ReachC6K dbg idna u.
+Check RC6K_join_rel : forall dbg idna ovr b input u, ReachC6K dbg idna b -> usv_list input -> C02_JoinPath.rel_ref input = true ->
+  parse_url dbg (host_parse idna) host_parse_opaque host_display ovr (Some b) input = POk u -> res_clean u = true -> ReachC6K dbg idna u.
+Check RC6K_join_scheme : forall dbg idna ovr b input u, ReachC6K dbg idna b -> usv_list input -> C02_AuthMain.nonfile_input input = true ->
+  parse_url dbg (host_parse idna) host_parse_opaque host_display ovr (Some b) input = POk u -> res_clean u = true -> ReachC6K dbg idna u.
+Check RC6K_join_abs_any : forall dbg idna ovr b input u, Reachable4K dbg idna b -> usv_list input -> C02_JoinAbs.abs_ref b input = true ->
+  parse_url dbg (host_parse idna) host_parse_opaque host_display ovr (Some b) input = POk u -> res_clean u = true -> ReachC6K dbg idna u.
+Check RC6K_step : forall dbg idna u o u', ReachC6K dbg idna u -> C02_Reach.op_args_ok o ->
+  C02_Stmt4.known_step3 dbg (host_parse idna) host_parse_opaque host_display u o = false ->
+  C02_Reach.apply_op dbg (host_parse idna) host_parse_opaque host_display u o = Some u' ->
+  nlen (ser u') <= U32_MAX_P -> host_clean u' -> ReachC6K dbg idna u'.
+Check RC6K_qpm : forall dbg idna u ops u', ReachC6K dbg idna u -> Forall C15_Ser.op_ok ops ->
+  QueryPairs.query_pairs_session dbg u ops = Some u' -> nlen (ser u') <= U32_MAX_P -> ReachC6K dbg idna u'.
+Check CRFK_parse : forall dbg idna ovr input u,
+  parse_url dbg (host_parse idna) host_parse_opaque host_display ovr None input = POk u -> res_clean u = true -> CReachFK dbg idna u.
+Check CRFK_join : forall dbg idna ovr b input u, CReachFK dbg idna b ->
+  parse_url dbg (host_parse idna) host_parse_opaque host_display ovr (Some b) input = POk u -> res_clean u = true -> CReachFK dbg idna u.
+Check CRFK_step : forall dbg idna u o u', CReachFK dbg idna u ->
+  C05_CompSteps3.step_gate3 (host_parse idna) host_parse_opaque host_display u o u' ->
+  C05_History.apply_op dbg (host_parse idna) host_parse_opaque host_display u o = Some u' -> host_clean u' -> CReachFK dbg idna u'.
+Check CRFK_qpm : forall dbg idna u ops u', CReachFK dbg idna u -> Forall C15_Ser.op_ok ops ->
+  QueryPairs.query_pairs_session dbg u ops = Some u' -> CReachFK dbg idna u'.
+
+(* a result-clean history of the model is a history of the capped model AND (C09_cap_history2) a history of the model *)
+Theorem C09_clean_history : forall dbg idna, IdnaOK2 idna ->
+  (forall u, Reachable3K dbg idna u -> C02_Reach3.Reachable3 dbg (host_parse (cap idna)) host_parse_opaque host_display u
+                                     /\ C02_Reach3.Reachable3 dbg (host_parse idna) host_parse_opaque host_display u)
+  /\ (forall u, Reachable4K dbg idna u -> C02_Stmt4.Reachable4 dbg (host_parse (cap idna)) host_parse_opaque host_display u)
+  /\ (forall u, ReachC6K dbg idna u -> C02_Reach7.ReachC6 dbg (host_parse (cap idna)) host_parse_opaque host_display u
+                                    /\ C02_Reach7.ReachC6 dbg (host_parse idna) host_parse_opaque host_display u)
+  /\ (forall u, CReachFK dbg idna u -> C05_ReachF.CReachF dbg (host_parse (cap idna)) host_parse_opaque host_display u
+                                    /\ C05_ReachF.CReachF dbg (host_parse idna) host_parse_opaque host_display u).
+Proof.
+  exact (fun dbg idna OK =>
+    conj (fun u H => conj (Reachable3K_cap dbg idna OK u H) (Reachable3K_3 dbg idna OK u H))
+   (conj (Reachable4K_cap dbg idna OK)
+   (conj (fun u H => conj (ReachC6K_cap dbg idna OK u H) (ReachC6K_6 dbg idna OK u H))
+         (fun u H => conj (CReachFK_cap dbg idna OK u H) (CReachFK_F dbg idna OK u H))))).
+Qed.
+Print Assumptions C09_clean_history.
+
+(* ---- C03_reachability_full_model, C05_reachF_model, C02_reach_partial6_model as statements about the model with the
+   REAL oracle: premise IdnaOK2 (derived for the uts46 model in C09_IdnaOK2_uts46) + a result-clean history ---- *)
+Theorem C09_real_C03_reachability_full : forall dbg idna, IdnaOK2 idna -> forall u,
+  Reachable3K dbg idna u -> C03_ParseFront.inv03 u.
+Proof. exact reach3_real. Qed.
+Print Assumptions C09_real_C03_reachability_full.
+
+Theorem C09_real_C05_reachF : forall dbg idna, IdnaOK2 idna -> forall u, CReachFK dbg idna u ->
+  (wfh u /\ components_clean dbg u) /\ C05_Alphabet.alphabet_ok u /\ sharp u /\ base_ok u = true
+  /\ (C05_HostText.spb u = true -> forall s, host_str u = Some (Some s) -> C05_HostInst.host_text_clean s).
+Proof. exact reachF_real. Qed.
+Print Assumptions C09_real_C05_reachF.
+
+Theorem C09_real_C02_reach_partial6 : forall dbg idna, IdnaOK2 idna -> forall u, ReachC6K dbg idna u ->
+  parse_url dbg (host_parse idna) host_parse_opaque host_display None None (utf8_lossy (ser u)) = POk u
+  /\ run_clean dbg idna None None (utf8_lossy (ser u)) /\ wf_b u = true /\ ascii (ser u).
+Proof. exact reach_partial6_real. Qed.
+Print Assumptions C09_real_C02_reach_partial6.
+
+(* non-vacuity (stand-in oracle idna_long: IdnaOK2 holds, IdnaOK does not): Url::parse("http://a.b:81/p") followed by
+   quirks set_host("c.d:82") is a result-clean history in all three relations *)
+Example C09_real_history_inhabited :
+  exists u u',
+    parse_url true (host_parse idna_long) host_parse_opaque host_display None None (B "http://a.b:81/p") = POk u
+    /\ C02_Reach.apply_op true (host_parse idna_long) host_parse_opaque host_display u (C02_Reach.OQHost (B "c.d:82")) = Some u'
+    /\ ser u' = B "http://c.d:82/p"
+    /\ Reachable3K true idna_long u' /\ ReachC6K true idna_long u' /\ CReachFK true idna_long u'.
+Proof. exact hist_real_inhabited. Qed.
